@@ -345,7 +345,7 @@ def clauses(tier, seed):
 
 def _symmetry_clauses():
   from contracts import equivariance_contracts, symmetry_contracts
-  eq = equivariance_contracts.clauses()
+  eq = equivariance_contracts.clauses() + equivariance_contracts.held_suarez_clauses('C10')
   for c in eq:
     c.replay = replay_equivariance
   return symmetry_contracts.clauses() + eq
